@@ -27,7 +27,7 @@ Rec(class, site, variant) == [class |-> class, site |-> site, variant |-> varian
 (* every number of entries next to an admissible one that is not itself admissible *)
 OffCounts(S) == { n \in { m - 1 : m \in S } \cup { m + 1 : m \in S } : n \notin S /\ n >= 1 }
 Faults ==
-     { Rec("tr_m", s, "-1") : s \in {"trcard", "fill_inline", "trcl_inline"} }
+     { Rec("tr_m", s, "-1") : s \in {"trcard", "startrcard", "fill_inline", "starfill_inline", "trcl_inline", "startrcl_inline"} }
   \cup { Rec("lattice_option", "lat", v) : v \in {"absent", "other_cell", "too_few_ranges", "too_many_ranges"} }
   \cup UNION { { Rec("surface_count", k, ToString(n)) : n \in OffCounts(SurfCounts[k]) } : k \in DOMAIN SurfCounts }
   \cup UNION { { Rec("surface_count", "/" \o k, ToString(n)) : n \in OffCounts(SlashCounts[k]) } : k \in DOMAIN SlashCounts }
